@@ -252,20 +252,51 @@ void gc_run_omfalos(gc * collector, gc_stack * omfalos, int stack_size)
     gc_sweep_all(collector);
 }
 
+#ifdef NEVER_VERIF
+/* verification hooks: schedule override (0 = skip, 1 = collect now, other = default
+   threshold) and a callback after each collection */
+int (*nev_verif_gc_decide)(gc * collector) = NULL;
+void (*nev_verif_gc_after)(gc * collector, gc_stack * stack, int stack_size,
+                           mem_ptr global_vec) = NULL;
+#endif
+
 void gc_run(gc * collector, gc_stack * stack, int stack_size,
             mem_ptr global_vec)
 {
+#ifdef NEVER_VERIF
+    if (nev_verif_gc_decide != NULL)
+    {
+        int decision = nev_verif_gc_decide(collector);
+        if (decision == 0)
+        {
+            return;
+        }
+        if (decision == 1)
+        {
+            goto nev_verif_collect;
+        }
+    }
+#endif
     if (collector->wb_top[collector->w_index] < collector->mem_size * 0.8)
     {
         return;
     }
 
+#ifdef NEVER_VERIF
+nev_verif_collect:
+#endif
     gc_mark_access(collector, stack, stack_size);
     if (global_vec > 0)
     {
         gc_mark(collector, global_vec);
     }
     gc_sweep_all(collector);
+#ifdef NEVER_VERIF
+    if (nev_verif_gc_after != NULL)
+    {
+        nev_verif_gc_after(collector, stack, stack_size, global_vec);
+    }
+#endif
 }
 
 mem_ptr gc_alloc_any(gc * collector, object * value)
